@@ -242,6 +242,18 @@ CHECKS = {
         "Trusted: the 40-line reference pivot/unpivot. Polars raising (schema errors on all-null columns) is a refusal.",
         "4/C17",
     ),
+    "C18": (
+        "metamorphic runtime monitor: re-presented inputs (row order, index flavours) + direct sortedness / limit-prefix oracle",
+        "Random pipelines with total window orders (verified by the generator) are evaluated on the original inputs and "
+        "on inputs re-presented as permuted rows and, for Pandas, with a shuffled integer index, duplicate labels, a "
+        "string index, a descending index, an offset RangeIndex, a stepped RangeIndex and a named index; Pandas, Polars "
+        "and SQLite must each return their own original multiset of rows. When the pipeline ends in order_rows the rows "
+        "must be sorted by the declared columns/reversals (exact comparison) and with a limit (incl. 0, beyond the row "
+        "count, ties at the cut) be a sub-multiset of the unlimited result of size min(limit, n) with no excluded row "
+        "sorting strictly before an included one. convert_records pipelines are driven with permuted block rows.",
+        "Trusted: each backend is its own baseline; null placement among order keys is not judged.",
+        "4/C18",
+    ),
 }
 
 NOT_BUILT = "check not built yet (build in progress, see DESIGN.md section 8)"
